@@ -501,6 +501,7 @@ func checkRuntimeRelease(c *report.Ctx) {
 			return
 		}
 		napp++
+		var guardSub *ssa.BinOp
 		g := facts.Holds(call.Block(), func(ft an.Fact) bool {
 			r, k := an.AsRel(ft)
 			if !k {
@@ -509,6 +510,7 @@ func checkRuntimeRelease(c *report.Ctx) {
 			for _, rr := range []an.Rel{r, r.Flip()} {
 				if _, isLen := an.LenArg(rr.X); isLen && rr.Op == token.LEQ {
 					if bo, k := rr.Y.(*ssa.BinOp); k && bo.Op == token.SUB {
+						guardSub = bo
 						return true
 					}
 				}
@@ -532,6 +534,13 @@ func checkRuntimeRelease(c *report.Ctx) {
 						inc = true
 					}
 				}
+			}
+		}
+		// (the number of delimiters owed may also be the length of the very list the feature is appended to: it
+		// then grows with the append itself)
+		if guardSub != nil && len(call.Call.Args) >= 1 {
+			if lv, isLen := an.LenArg(guardSub.Y); isLen && lv == call.Call.Args[0] {
+				inc = true
 			}
 		}
 		if !dec || !inc {
